@@ -8,7 +8,8 @@ JSON-lines driver for the gbnf engine: one request per line on stdin, one reply 
   {"op":"frag_match","frag":s,"strings":[s…],"fuel":n}   -> {"ok":false} | {"ok":true,"m":[b…]}
   {"op":"rule_match","text":s,"rule":s,"strings":[s…],"fuel":n}    (value part of a compiled field rule: items after `ws`)
   {"op":"sanitize","lower":s} -> {"out":s}      {"op":"escape","s":s} -> {"out":s}
-  {"op":"py_number","s":s} -> {"m":b}           {"op":"chain","chain":[constraint…]} -> {"frag":s,"deciding":kind|null} | {"raise":true}
+  {"op":"py_number","s":s} -> {"m":b}   {"op":"valid_ymd","s":s} -> {"m":b}
+          {"op":"chain","chain":[constraint…]} -> {"frag":s,"deciding":kind|null} | {"raise":true}
 field: {"name":s,"lower":s,"chain":null | [constraint…]}
 constraint: {"k":"REQ"|"OPT"|"DIR"|"APPEND_ONLY"|"RANGE"|"MAX_LENGTH"|"DATE"|"ISO8601"|"OTHER"} | {"k":"ENUM","a":[s…]}
           | {"k":"CONST","s":s} | {"k":"TYPE","t":s} | {"k":"REGEX","p":s} | {"k":"MIN_LENGTH","n":int}
@@ -17,6 +18,7 @@ import Lean.Data.Json
 import Octave.Model.Gbnf
 import Octave.Spec.GbnfSyntax
 import Octave.Spec.PyNumber
+import Octave.Spec.Calendar
 open Lean Octave Octave.Gbnf
 
 def strOf (j : Json) (k : String) : Except String Str := do
@@ -147,6 +149,7 @@ def handle (j : Json) : Except String Json := do
   | "sanitize" => pure (Json.mkObj [("out", jstr (sanitize (← strOf j "lower")))])
   | "escape" => pure (Json.mkObj [("out", jstr (escapeLiteral (← strOf j "s")))])
   | "py_number" => pure (Json.mkObj [("m", Json.bool (pyNumberFull (← strOf j "s")))])
+  | "valid_ymd" => pure (Json.mkObj [("m", Json.bool (validYMD (← strOf j "s")))])
   | "chain" =>
     match ← chainOfJson (← j.getObjVal? "chain") with
     | none => throw "chain"
